@@ -631,7 +631,7 @@ theorem exec_pres {nt : Nat} (s : St) (op : Op) (hm : MInv nt s) (hop : op.inner
       | cons f rest =>
         simp only []
         exact pres_fin P hP { s with cbs := rest } s.cur f.d1 f.d2 h (Frame.refl _) (EF.refl _)
-  | transfer t src dst amt caller recv data =>
+  | transfer t src dst amt caller dk data =>
     simp only [exec]
     split
     · exact h
@@ -647,7 +647,7 @@ theorem exec_pres {nt : Nat} (s : St) (op : Op) (hm : MInv nt s) (hop : op.inner
         split
         · exact this
         · exact this
-      | posted l d1 d2 => exact pres_afterPosted P hP s t l src dst amt recv data d1 d2 h (fp l d1 d2 hp) (ep l d1 d2 hp)
+      | posted l d1 d2 => exact pres_afterPosted P hP s t l src dst amt (recvOf s.env dst dk) data d1 d2 h (fp l d1 d2 hp) (ep l d1 d2 hp)
   | vote acc pub caller =>
     simp only [exec]
     split
@@ -685,7 +685,7 @@ theorem exec_pres {nt : Nat} (s : St) (op : Op) (hm : MInv nt s) (hop : op.inner
     split
     · exact h
     · exact pres_done P hP s _ _ h (lockDeposit_frame _ _ _ _ _) (lockDeposit_ef _ _ _ _ _)
-  | withdraw src dst caller recv =>
+  | withdraw src dst caller =>
     simp only [exec]
     split
     · exact h
@@ -702,7 +702,7 @@ theorem exec_pres {nt : Nat} (s : St) (op : Op) (hm : MInv nt s) (hop : op.inner
         | thr => exact ⟨h.2, h.2⟩
         | ret l' b => exact ⟨h.2, h.2⟩
         | posted l' d1 d2 =>
-          exact pres_afterPosted P hP s .gas l' s.env.notary (dst.getD src) amt recv .other d1 d2 h
+          exact pres_afterPosted P hP s .gas l' s.env.notary (dst.getD src) amt (recvOf s.env (dst.getD src) .null) .other d1 d2 h
             (f1.trans (fp l' d1 d2 hp)) (e1.trans (ep l' d1 d2 hp))
   | setGpb gas caller =>
     simp only [exec]
@@ -743,10 +743,7 @@ theorem step_pres {nt : Nat} (s : St) (op : Op) (hm : MInv nt s) (hop : op.inner
     P (step s op).cur ∧ P (step s op).snap := by
   unfold step
   split
-  · split
-    · exact h
-    · exact h
-    · exact h
+  · (repeat' split) <;> exact h
   · split
     · exact ⟨h.2, h.2⟩
     · exact exec_pres P hP s op hm hop h
@@ -792,7 +789,7 @@ structure Bnd (e0 : Env) (s : St) : Prop where
 theorem step_panicked (s : St) (op : Op) (h : s.panicked = true) : (step s op).panicked = true := by
   unfold step
   split
-  · split <;> exact h
+  · (repeat' split) <;> exact h
   · split
     · exact h
     · cases op <;> simp only [exec, St.throw, St.done, afterPosted] <;> (repeat' split) <;> first | exact h | rfl
@@ -805,7 +802,7 @@ theorem run_panicked (s : St) (ops : List Op) (h : s.panicked = true) : (run s o
 theorem step_cfg (e0 : Env) (s : St) (op : Op) (h : sameCfg e0 s.env) : sameCfg e0 (step s op).env := by
   unfold step
   split
-  · split <;> exact h
+  · (repeat' split) <;> exact h
   · split
     · exact h
     · cases op <;> simp only [exec, St.throw, St.done, afterPosted] <;> (repeat' split) <;> exact h
@@ -818,7 +815,7 @@ theorem run_cfg (e0 : Env) (s : St) (ops : List Op) (h : sameCfg e0 s.env) : sam
 theorem step_index (s : St) (op : Op) (hop : op.inner = true) : (step s op).env.index = s.env.index := by
   unfold step
   split
-  · split <;> rfl
+  · (repeat' split) <;> rfl
   · split
     · rfl
     · cases op <;> simp only [exec, St.throw, St.done, afterPosted] <;> (repeat' split) <;> first | rfl | (simp [Op.inner] at hop)
